@@ -67,7 +67,12 @@ impl EventSource for UnixRecvFrom<'_> {
     fn subscribe(&mut self, co: CoroutineImpl) {
         #[cfg(feature = "io_cancel")]
         let cancel = co_cancel_data(&co);
-        let io_data = self.io_data;
+        // once the coroutine is stored below it can be resumed by the selector thread
+        // and finish: keep its handle (the cancel data lives there) and the event data
+        // alive, `self` and the socket it points into may be gone by then
+        #[cfg(feature = "io_cancel")]
+        let _handle = crate::coroutine_impl::co_get_handle(&co);
+        let io_data = (**self.io_data).clone();
 
         #[cfg(feature = "io_timeout")]
         if let Some(dur) = self.timeout {
@@ -86,7 +91,7 @@ impl EventSource for UnixRecvFrom<'_> {
         #[cfg(feature = "io_cancel")]
         {
             // register the cancel io data
-            cancel.set_io((*io_data).clone());
+            cancel.set_io(io_data.clone());
             // re-check the cancel status
             if cancel.is_canceled() {
                 unsafe { cancel.cancel() };
